@@ -238,10 +238,11 @@ def finish(prop, tier, seed, level, merged, failures, rule, t0, guards=None, ass
         # g = (name, observed, needed)
         if g[1] < g[2]:
             inconclusive.append(f"guard {g[0]}: observed {g[1]} < needed {g[2]}")
-    os.makedirs(os.path.join(HOME, "evidence"), exist_ok=True)
-    os.makedirs(os.path.join(HOME, "replays"), exist_ok=True)
+    OUT = os.environ.get("VERIF_OUT") or HOME     # mutation experiments write elsewhere
+    os.makedirs(os.path.join(OUT, "evidence"), exist_ok=True)
+    os.makedirs(os.path.join(OUT, "replays"), exist_ok=True)
     import glob
-    for old_rp in glob.glob(os.path.join(HOME, "replays", f"{prop}-{tier}-*.json")):
+    for old_rp in glob.glob(os.path.join(OUT, "replays", f"{prop}-{tier}-*.json")):
         try:
             os.unlink(old_rp)
         except OSError:
@@ -264,7 +265,7 @@ def finish(prop, tier, seed, level, merged, failures, rule, t0, guards=None, ass
     real_sorted += [v for v in real if v not in real_sorted][:5]
     for v in real_sorted:
         nrep += 1
-        rp = os.path.join(HOME, "replays", f"{prop}-{tier}-{seed}-{nrep}.json")
+        rp = os.path.join(OUT, "replays", f"{prop}-{tier}-{seed}-{nrep}.json")
         with open(rp, "w") as f:
             json.dump({"property": prop, "tier": tier, "seed": seed, "sig": v["sig"], "msg": v["msg"], "witness": v["witness"]}, f, indent=1, default=repr)
         lines.append(f"VIOLATION property={prop} replay={rp}")
@@ -300,7 +301,7 @@ def finish(prop, tier, seed, level, merged, failures, rule, t0, guards=None, ass
         "wall_s": round(time.monotonic() - t0, 2),
         "violations": len(real),
     }
-    with open(os.path.join(HOME, "evidence", f"{prop}.json"), "w") as f:
+    with open(os.path.join(OUT, "evidence", f"{prop}.json"), "w") as f:
         json.dump(ev, f, indent=1, default=repr)
     for ln in lines:
         print(ln)
